@@ -536,6 +536,46 @@ def r20_11(run, model):
     run.floor("method lists built by completions_for_type", n, 2)
 
 
+def r20_12(run, model):
+    run.rule("R20.12", "hover on an expression answers for the outermost node at that place: several HIR nodes can share one syntax pointer "
+                       "(`t.1.0` lowers to two projections; parentheses), the inner one is allocated first, so HirResultsIndex::new lets a "
+                       "later id replace an earlier one (`insert`) - keeping the first would answer with the inner node's type")
+    f = model.fn("new", QUERY, impl="HirResultsIndex")
+    n = 0
+    for c in S.walk(f.body):
+        if c["k"] != "MethodCall" or c["method"] not in ("insert", "entry", "or_insert", "or_insert_with", "try_insert") or "by_ptr" not in S.norm_ws(run.facts.text(QUERY, c["sp"])):
+            continue
+        if c["method"] in ("or_insert", "or_insert_with") or c["method"] == "insert":
+            n += 1
+            ok = c["method"] == "insert"
+            run.ob("R20.12", f"HirResultsIndex::new|index write #{n} lets the later (outer) node win", ok, site(QUERY, c["sp"]),
+                   S.norm_ws(run.facts.text(QUERY, c["sp"]))[:70],
+                   witness="hover on t.1.0 with t: (int32, (Point, string)): the answer is (Point, string), the type of the inner projection t.1")
+    run.floor("writes to the pointer index", n, 3)
+
+
+def r20_13(run, model):
+    run.rule("R20.13", "a query type-checks the buffer in the package it declares: typecheck_single_file_for_query hands the type checker the "
+                       "package name of the lowered file (hir.name), not a fixed one - the HIR of `package Lib` holds Lib-qualified names")
+    f = model.fn("typecheck_single_file_for_query", QUERY)
+    calls = [c for c in S.walk(f.body) if c["k"] == "Call" and S.callee_name(c) == "check_file_with_env_and_results"]
+    if not calls:
+        raise AnalysisIncomplete("typecheck_single_file_for_query: call of check_file_with_env_and_results not found")
+    from rules import c07
+    for c in calls:
+        lits = [a for a in c["args"] if a["k"] == "Lit" and a.get("lit") == "Str"]
+        named = False
+        for a in c["args"]:
+            chain = [S.norm_ws(run.facts.text(QUERY, a["sp"]))]
+            for i in S.idents(a):
+                chain += c07._origin_chain(run, f, QUERY, c, i, depth=2)
+            if any(re.search(r"\bhir\.name\b|\.package\b", t) for t in chain):
+                named = True
+        run.ob("R20.13", "typecheck_single_file_for_query|the package is the one the buffer declares", named and not lits, site(QUERY, c["sp"]),
+               f"string literals among the arguments: {[l.get('value') for l in lits]}; an argument derived from the file's package: {named}",
+               witness="hover in Lib/lib.gom (package Lib, no imports): `() -> Point` instead of `() -> Lib::Point`, a struct literal hovers as TypeVar(4)")
+
+
 def run(run, model):
     mir = Mir(run.facts)
     g = Graph(mir)
@@ -545,6 +585,8 @@ def run(run, model):
     run.try_rule(r20_9, model)
     run.try_rule(r20_10, model)
     run.try_rule(r20_11, model)
+    run.try_rule(r20_12, model)
+    run.try_rule(r20_13, model)
     from rules import c07
     run.rule("R20.7", "the occurs check looks into every component of every type former (shared with C07 R07.2, restricted to typer::unify): a "
                       "missed component lets a cyclic type through and the next query overflows the stack")
